@@ -95,10 +95,11 @@ QC(a) == Red(a.k, a.m)
 X1 == VI(1, 0, 0)  Y1 == VI(0, 1, 0)  Z1 == VI(0, 0, 1)
 NQ(t) == CASE t = "pin" -> 1 [] t = "slider" -> 1 [] t = "weld" -> 0 [] t = "universal" -> 2 [] t = "cylinder" -> 2
            [] t = "bendstretch" -> 2 [] t = "planar" -> 3 [] t = "translation" -> 3 [] t = "gimbal" -> 3
-           [] t = "bushing" -> 6 [] t = "ball" -> 4 [] t = "free" -> 7 [] t = "balle" -> 3 [] t = "freee" -> 6 [] t = "euler5" -> 5
-NU(t) == CASE t = "ball" -> 3 [] t = "free" -> 6 [] OTHER -> NQ(t)
+           [] t = "bushing" -> 6 [] t = "ball" -> 4 [] t = "free" -> 7 [] t = "balle" -> 3 [] t = "freee" -> 6 [] t = "euler5" -> 5 [] t = "spherical" -> 3 [] t = "ellipsoid" -> 4 [] t = "ellipsoide" -> 3
+NU(t) == CASE t = "ball" -> 3 [] t = "free" -> 6 [] t = "ellipsoid" -> 3 [] OTHER -> NQ(t)
 
-Def(t, qq, uu, ud) ==
+\* opt: the mobilizer's construction options (SphericalCoords offsets / signs / radial axis, Ellipsoid radii); unused otherwise
+Def(t, qq, uu, ud, opt) ==
   LET U(i) == R(uu[i])  A(i) == R(ud[i])
       Nothing == [R |-> Ident, p |-> VZero, w |-> VZero, v |-> VZero, aw |-> VZero, av |-> VZero]
   IN
@@ -143,6 +144,31 @@ Def(t, qq, uu, ud) ==
              v |-> IF tr THEN V3(U(4), U(5), U(6)) ELSE IF t5 THEN V3(U(4), U(5), Zero) ELSE VZero,
              aw |-> aw,
              av |-> IF tr THEN V3(A(4), A(5), A(6)) ELSE IF t5 THEN V3(A(4), A(5), Zero) ELSE VZero]
+    [] t = "spherical" ->
+         \* azimuth = s0 q1 + az0 about Fz, zenith = s1 q2 + ze0 about the rotated My, then radius = s2 q3 along Mz or Mx; u = qdot
+         LET s0 == IF opt.azNeg = 1 THEN -1 ELSE 1  s1 == IF opt.zeNeg = 1 THEN -1 ELSE 1  s2 == IF opt.rNeg = 1 THEN -1 ELSE 1
+             az == [k |-> s0 * qq[1].k + opt.azOff.k, m |-> s0 * qq[1].m + opt.azOff.m]
+             ze == [k |-> s1 * qq[2].k + opt.zeOff.k, m |-> s1 * qq[2].m + opt.zeOff.m]
+             Rz == RotA("z", az)  Rm == MM(Rz, RotA("y", ze))
+             y1 == MV(Rz, Y1)
+             e == MV(Rm, IF opt.axis = "x" THEN X1 ELSE Z1)
+             tt == R(s2 * qq[3].k)  td == R(s2 * uu[3])  tdd == R(s2 * ud[3])
+             w1 == VScale(R(s0 * uu[1]), Z1)  w2 == VScale(R(s1 * uu[2]), y1)
+             w == VAdd(w1, w2)
+             aw == VAdd(VAdd(VScale(R(s0 * ud[1]), Z1), VScale(R(s1 * ud[2]), y1)), Cross(w1, w2))
+             we == Cross(w, e)
+         IN [R |-> Rm, p |-> VScale(tt, e), w |-> w, v |-> VAdd(VScale(td, e), VScale(tt, we)), aw |-> aw,
+             av |-> VAdd(VAdd(VScale(tdd, e), VScale(RMul(R(2), td), we)), VScale(tt, VAdd(Cross(aw, e), Cross(w, we))))]
+    [] t \in {"ellipsoid", "ellipsoide"} ->
+         \* orientation as for Ball (quaternion, or x-y-z angles with the Euler option), speeds u = w_FM in F; the M origin rides on the
+         \* ellipsoid with semi-axes opt.radii fixed in F at p = (a n_x, b n_y, c n_z), n = M's z axis in F
+         LET Rm == IF t = "ellipsoid" THEN QuatRot(QC(qq[1]), QC(qq[2]), QC(qq[3]), QC(qq[4]))
+                   ELSE MM(MM(RotA("x", qq[1]), RotA("y", qq[2])), RotA("z", qq[3]))
+             S(v) == << RMul(R(opt.radii[1]), v[1]), RMul(R(opt.radii[2]), v[2]), RMul(R(opt.radii[3]), v[3]) >>
+             n == MV(Rm, Z1)
+             w == V3(U(1), U(2), U(3))  aw == V3(A(1), A(2), A(3))
+             nd == Cross(w, n)
+         IN [R |-> Rm, p |-> S(n), w |-> w, v |-> S(nd), aw |-> aw, av |-> S(VAdd(Cross(aw, n), Cross(w, nd)))]
     [] t \in {"balle", "freee"} ->
          \* Ball / Free with the "use Euler angles" modelling option: orientation by body-fixed x-y-z angles as for a Gimbal,
          \* but the speeds keep their meaning: u = w_FM in F (and v_FM in F)
@@ -163,8 +189,8 @@ Def(t, qq, uu, ud) ==
 \*  R_FM = R_MF';  p_FM = -R_FM p_MF;  w_FM = -R_FM w_MF;  v_FM = w_FM x p_FM - R_FM v_MF
 \*  aw_FM = -R_FM aw_MF (the derivative of a vector rotating with its own angular velocity needs no cross term)
 \*  av_FM = aw_FM x p_FM + w_FM x v_FM - w_FM x (R_FM v_MF) - R_FM av_MF
-Rel(t, rev, qq, uu, ud) ==
-  LET D == Def(t, qq, uu, ud) IN
+Rel(t, rev, qq, uu, ud, opt) ==
+  LET D == Def(t, qq, uu, ud, opt) IN
   IF ~rev THEN D
   ELSE LET Rfm == MT(D.R)
            p == VNeg(MV(Rfm, D.p))
@@ -189,7 +215,7 @@ Pose(i, X, qq) ==
   LET P == IF desc[i].parent = 0 THEN Ground ELSE X[desc[i].parent]
       RGF == MM(P.R, FrameRot(desc[i].RF))
       pGF == VAdd(P.p, MV(P.R, desc[i].pF))
-      D == Rel(desc[i].type, desc[i].rev, qq[i], ZeroU[i], ZeroU[i])
+      D == Rel(desc[i].type, desc[i].rev, qq[i], ZeroU[i], ZeroU[i], desc[i].opt)
       RGM == MM(RGF, D.R)
       pGM == VAdd(pGF, MV(RGF, D.p))
       RGB == MM(RGM, MT(FrameRot(desc[i].RM)))
@@ -206,7 +232,7 @@ Vel(i, X, V, qq, uu, ud) ==
   LET P == IF desc[i].parent = 0 THEN GroundV ELSE V[desc[i].parent]
       XP == IF desc[i].parent = 0 THEN Ground ELSE X[desc[i].parent]
       Xi == X[i]
-      D == Rel(desc[i].type, desc[i].rev, qq[i], uu[i], ud[i])
+      D == Rel(desc[i].type, desc[i].rev, qq[i], uu[i], ud[i], desc[i].opt)
       \* F origin (fixed in the parent)
       rF == VSub(Xi.pF, XP.p)
       vF == VAdd(P.v, Cross(P.w, rF))
@@ -386,7 +412,7 @@ Eval(dyn, ud, F, q2, u2, tasks, cons) ==
                                 ELSE LET B == Vu[tasks[k].b]  r == StG(k) IN
                                      [aw |-> B.aw, a |-> VAdd(B.a, VAdd(Cross(B.aw, r), Cross(B.w, Cross(B.w, r))))]] ELSE <<>>,
       JStF |-> JStF, JFtF |-> JFtF,
-      fit |-> [b \in 1..N |-> LET D == Rel(desc[b].type, desc[b].rev, q2[b], u2[b], ZeroU[b]) IN [R |-> D.R, p |-> D.p, w |-> D.w, v |-> D.v]],
+      fit |-> [b \in 1..N |-> LET D == Rel(desc[b].type, desc[b].rev, q2[b], u2[b], ZeroU[b], desc[b].opt) IN [R |-> D.R, p |-> D.p, w |-> D.w, v |-> D.v]],
       P |-> SumVS(TLCEval([b \in 1..N |-> VScale(Mass(b), Bu[b].vc)]), N),
       L |-> SumVS(TLCEval([b \in 1..N |-> VAdd(MV(IcG(b, X), Bu[b].w), VScale(Mass(b), Cross(ComG(b, X), Bu[b].vc)))]), N),
       mcom |-> SumVS(TLCEval([b \in 1..N |-> VScale(Mass(b), ComG(b, X))]), N),
